@@ -75,6 +75,11 @@ func CheckReplies(c *Ctx, clients []*TClient) map[*TClient]map[wamp.ID]*replySta
 					allowed++
 				}
 			}
+			if c.W != nil && LossyTo(c, c.W, cl.Sess) {
+				// a caller that may have lost the final reply to an earlier chunk cannot
+				// know that its call has ended: every chunk it sent may be answered on its own
+				allowed = len(chunkSeq[req])
+			}
 			if allowed < 1 {
 				allowed = 1
 			}
@@ -175,7 +180,16 @@ func CheckOrderingLossy(c *Ctx, clients []*TClient, lossy map[*TClient]bool) {
 					if len(parts) == 3 && parts[0] == "c" {
 						var n int
 						fmt.Sscanf(parts[2], "%d", &n)
-						if last, seen := lastCall[parts[1]]; seen && n <= last {
+						// a caller that lost the final reply of a progressive call
+						// goes on sending chunks under a request id the dealer has
+						// finished with: the same call number may then start twice
+						callerLossy := false
+						for _, o := range clients {
+							if o.Name == parts[1] && lossy[o] {
+								callerLossy = true
+							}
+						}
+						if last, seen := lastCall[parts[1]]; seen && (n < last || (n == last && !callerLossy)) {
 							c.Violf("%s: calls of caller %s arrived out of call order: call %d after call %d", cl.Name, parts[1], n, last)
 						}
 						lastCall[parts[1]] = n
